@@ -40,25 +40,29 @@ Fixpoint chain_grow (fuel : nat) (s : lstate T) (M : cmat T)
 
 Definition chain_fuel (M : cmat T) : nat := length (m_data M) + 2.
 
+(* start of an iteration: a fresh chain [a] with a nearest neighbour b of the
+   first live cluster a, or the kept chain with its top three popped *)
+Definition chain_start (s : lstate T) (M : cmat T) : res (list nat * nat * nat * T) :=
+  if length (st_chain s) <? 4 then
+    do live <- a_iter (st_active s);
+    do a <- opt_unwrap (hd_error live);
+    do b <- opt_unwrap (nth_error live 1);
+    do mn <- mget p M a b;
+    do xs <- a_above (st_active s) b;
+    do '(mn', b') <- mfold (nn_scan M (fun _ => a) (fun x => x)) xs (mn, b);
+    Ok ([a], a, b', mn')
+  else
+    let c1 := removelast (removelast (st_chain s)) in
+    do b <- vlast c1 1;
+    let c2 := removelast c1 in
+    do a <- vlast c2 1;
+    do mn <- (if a <? b then mget p M a b else mget p M b a);
+    Ok (c2, a, b, mn).
+
 Definition chain_iter (meth : method) (acc : lstate T * dend T * cmat T) (_ : nat)
   : res (lstate T * dend T * cmat T) :=
   let '(s, d, M) := acc in
-  do '(chain0, a0, b0, mn0) <-
-    (if length (st_chain s) <? 4 then
-       do live <- a_iter (st_active s);
-       do a <- opt_unwrap (hd_error live);
-       do b <- opt_unwrap (nth_error live 1);
-       do mn <- mget p M a b;
-       do xs <- a_above (st_active s) b;
-       do '(mn', b') <- mfold (nn_scan M (fun _ => a) (fun x => x)) xs (mn, b);
-       Ok ([a], a, b', mn')
-     else
-       let c1 := removelast (removelast (st_chain s)) in
-       do b <- vlast c1 1;
-       let c2 := removelast c1 in
-       do a <- vlast c2 1;
-       do mn <- (if a <? b then mget p M a b else mget p M b a);
-       Ok (c2, a, b, mn));
+  do '(chain0, a0, b0, mn0) <- chain_start s M;
   do '(chain1, a1, b1, mn1) <- chain_grow (chain_fuel M) s M chain0 a0 b0 mn0;
   let '(a, b) := if b1 <? a1 then (b1, a1) else (a1, b1) in
   let s1 := st_with_chain s chain1 in
